@@ -257,19 +257,21 @@ package cdi
 // CacheWF: representation invariant of the index (established by refresh from newSpec's results).
 //@ pred CacheWF(c *Cache) = forall(k, string, has(c.devices, k), c.devices[k] != nil && c.devices[k].Device != nil &&
 //@        c.devices[k].spec != nil && c.devices[k].spec.Spec != nil &&
-//@        NoNilEntries(val(&c.devices[k].ContainerEdits)) && NoNilEntries(val(&c.devices[k].spec.ContainerEdits)))
+//@        NoNilEntries(&c.devices[k].ContainerEdits) && NoNilEntries(&c.devices[k].spec.ContainerEdits))
 
 // Allocation-time separation: everything reachable from the index was allocated no later than `a`.
-//@ pred ListsBefore(e cdi.ContainerEdits, a int) = own(e.DeviceNodes) <= a && own(e.Hooks) <= a && own(e.Mounts) <= a &&
+//@ pred ListsBefore(e *cdi.ContainerEdits, a int) = own(e.DeviceNodes) <= a && own(e.Hooks) <= a && own(e.Mounts) <= a &&
 //@        own(e.Env) <= a && own(e.AdditionalGIDs) <= a
-//@ pred ListsAfter(e cdi.ContainerEdits, a int) = (base(e.DeviceNodes) == 0 || own(e.DeviceNodes) > a) &&
+//@ pred ListsAfter(e *cdi.ContainerEdits, a int) = (base(e.DeviceNodes) == 0 || own(e.DeviceNodes) > a) &&
 //@        (base(e.Hooks) == 0 || own(e.Hooks) > a) && (base(e.Mounts) == 0 || own(e.Mounts) > a) &&
 //@        (base(e.Env) == 0 || own(e.Env) > a) && (base(e.AdditionalGIDs) == 0 || own(e.AdditionalGIDs) > a)
 //@ pred CacheBefore(c *Cache, a int) = forall(k, string, has(c.devices, k), own(c.devices[k]) <= a &&
 //@        own(c.devices[k].Device) <= a && own(c.devices[k].spec) <= a && own(c.devices[k].spec.Spec) <= a &&
-//@        ListsBefore(val(&c.devices[k].ContainerEdits), a) && ListsBefore(val(&c.devices[k].spec.ContainerEdits), a))
+//@        ListsBefore(&c.devices[k].ContainerEdits, a) && ListsBefore(&c.devices[k].spec.ContainerEdits, a))
 
 //@ func (c *Cache) refreshIfRequired(force bool) (refreshed bool, err error)
+//@   requires c != nil
+//@   requires excl
 //@   trusted
 //@   typeframe github.com/opencontainers/runtime-spec/specs-go
 //@   preserves github.com/opencontainers/runtime-spec/specs-go, tags.cncf.io/container-device-interface/specs-go
@@ -291,8 +293,8 @@ package cdi
 //@   ensures implies(e != nil && o != nil && o.ContainerEdits != nil,
 //@                   e.ContainerEdits != nil && (e.ContainerEdits == old(e.ContainerEdits) || fresh(e.ContainerEdits)))
 //@   ensures implies(e != nil && o != nil && o.ContainerEdits != nil &&
-//@                   (old(e.ContainerEdits) == nil || old(NoNilEntries(val(e.ContainerEdits)))) && old(NoNilEntries(val(o.ContainerEdits))),
-//@                   NoNilEntries(val(e.ContainerEdits)))
+//@                   (old(e.ContainerEdits) == nil || old(NoNilEntries(e.ContainerEdits))) && old(NoNilEntries(o.ContainerEdits)),
+//@                   NoNilEntries(e.ContainerEdits))
 //@   ensures implies(e != nil && o != nil && o.ContainerEdits != nil,
 //@                   (base(e.Env) == 0 || (old(e.ContainerEdits) != nil && base(e.Env) == old(base(e.Env))) || fresh(e.Env)) &&
 //@                   (base(e.DeviceNodes) == 0 || (old(e.ContainerEdits) != nil && base(e.DeviceNodes) == old(base(e.DeviceNodes))) || fresh(e.DeviceNodes)) &&
@@ -301,7 +303,7 @@ package cdi
 //@                   (base(e.AdditionalGIDs) == 0 || (old(e.ContainerEdits) != nil && base(e.AdditionalGIDs) == old(base(e.AdditionalGIDs))) || fresh(e.AdditionalGIDs)))
 
 //@ func (e *ContainerEdits) Apply(spec *oci.Spec) (err error)
-//@   requires e == nil || e.ContainerEdits == nil || NoNilEntries(val(e.ContainerEdits))
+//@   requires e == nil || e.ContainerEdits == nil || NoNilEntries(e.ContainerEdits)
 //@   loop 1 invariant specgen.Config == spec
 //@   loop 2 invariant specgen.Config == spec
 //@   loop 3 invariant specgen.Config == spec
@@ -336,13 +338,14 @@ package cdi
 //@   loop 1 invariant edits != nil && fresh(edits) && (edits.ContainerEdits == nil || (fresh(edits.ContainerEdits) && OwnLists(edits.ContainerEdits)))
 //@   loop 1 invariant base(devices) == 0 || base(devices) != base(unresolved)
 //@   loop 1 invariant edits.ContainerEdits == nil || base(edits.Env) == 0 || base(edits.Env) != base(unresolved)
-//@   loop 1 invariant edits.ContainerEdits == nil || NoNilEntries(val(edits.ContainerEdits))
-//@   loop 1 invariant CacheWF(c) && CacheBefore(c, a1)
-//@   loop 1 invariant own(edits) > a1 && (edits.ContainerEdits == nil || (own(edits.ContainerEdits) > a1 && ListsAfter(val(edits.ContainerEdits), a1)))
+//@   loop 1 invariant edits.ContainerEdits == nil || NoNilEntries(edits.ContainerEdits)
+//@   loop 1 invariant CacheWF(c)
+//@   loop 1 invariant CacheBefore(c, a1)
+//@   loop 1 invariant own(edits) > a1 && (edits.ContainerEdits == nil || (own(edits.ContainerEdits) > a1 && ListsAfter(edits.ContainerEdits, a1)))
 
 // ---------------------------------------------------------------- Apply and helpers (C14: frame; C08: preconditions)
 
-//@ pred NoNilEntries(c cdi.ContainerEdits) = forall(i, 0 <= i && i < len(c.DeviceNodes), c.DeviceNodes[i] != nil) &&
+//@ pred NoNilEntries(c *cdi.ContainerEdits) = forall(i, 0 <= i && i < len(c.DeviceNodes), c.DeviceNodes[i] != nil) &&
 //@        forall(i, 0 <= i && i < len(c.Hooks), c.Hooks[i] != nil) && forall(i, 0 <= i && i < len(c.Mounts), c.Mounts[i] != nil)
 
 //@ func deviceInfoFromPath(path string) (devType string, major, minor int64, err error)
@@ -384,10 +387,52 @@ package cdi
 //@   ensures specgen.Config == old(specgen.Config)
 
 //@ func (d *Device) ApplyEdits(ociSpec *oci.Spec) (err error)
-//@   requires d != nil && d.Device != nil && NoNilEntries(val(&d.ContainerEdits))
+//@   requires d != nil && d.Device != nil && NoNilEntries(&d.ContainerEdits)
 //@   preserves tags.cncf.io/container-device-interface/specs-go, tags.cncf.io/container-device-interface/pkg/cdi
 //@   frametags C14
 //@ func (s *Spec) ApplyEdits(ociSpec *oci.Spec) (err error)
-//@   requires s != nil && s.Spec != nil && NoNilEntries(val(&s.ContainerEdits))
+//@   requires s != nil && s.Spec != nil && NoNilEntries(&s.ContainerEdits)
 //@   preserves tags.cncf.io/container-device-interface/specs-go, tags.cncf.io/container-device-interface/pkg/cdi
 //@   frametags C14
+
+// ---------------------------------------------------------------- cache.go lock discipline (C12)
+// `excl` = the cache mutex is held by this operation, or the cache object has not been handed out yet.
+
+//@ guarded Cache.{specDirs, specs, devices, errors, dirErrors, autoRefresh, watch} by Cache.Mutex
+//@ guarded watch.{watcher, tracked} by Cache.Mutex
+
+//@ func newCache(options []Option) (c *Cache)
+//@   constructor
+//@ func (c *Cache) configure(options []Option)
+//@   requires c != nil
+//@   requires excl
+//@ func (c *Cache) refresh() (err error)
+//@   requires c != nil
+//@   requires excl
+//@ func (c *Cache) highestPrioritySpecDir() (dir string, prio int)
+//@   requires c != nil
+//@   requires excl
+//@ func (w *watch) setup(dirs []string, dirErrors map[string]error)
+//@   requires w != nil
+//@   requires excl
+//@   acquires guarded dirErrors
+//@ func (w *watch) start(m *sync.Mutex, refresh func() error, dirErrors map[string]error)
+//@   requires w != nil
+//@   requires excl
+//@ func (w *watch) stop()
+//@   requires w != nil
+//@   requires excl
+//@ func (w *watch) update(dirErrors map[string]error, removed []string) (r bool)
+//@   requires w != nil
+//@   requires excl
+//@   acquires guarded dirErrors
+//@ func (w *watch) watch(fsw *fsnotify.Watcher, m *sync.Mutex, refresh func() error, dirErrors map[string]error)
+//@   requires w != nil && m != nil
+//@   requires !held
+//@   acquires guarded dirErrors
+//@ func WithSpecDirs$1(c *Cache)
+//@   requires c != nil
+//@   requires excl
+//@ func WithAutoRefresh$1(c *Cache)
+//@   requires c != nil
+//@   requires excl
